@@ -39,6 +39,10 @@ func (gen *generator) createTypeDefs() error {
 	//     (without bodies).
 	gen.new.typeDefs = make(map[string]types.Type)
 	for typeName, old := range gen.old.typeDefs {
+		if _, ok := old.Typ().(*ast.NamedType); ok {
+			// Another name of a named type; resolved below.
+			continue
+		}
 		// track is used to identify self-referential named types.
 		track := make(map[string]bool)
 		t, err := newType(typeName, old.Typ(), gen.old.typeDefs, track)
@@ -46,6 +50,25 @@ func (gen *generator) createTypeDefs() error {
 			return errors.WithStack(err)
 		}
 		gen.new.typeDefs[typeName] = t
+	}
+	// A type definition whose body is a named type (e.g. `%a = type %b`) gives
+	// another name to the type it resolves to; both names refer to the same IR
+	// type.
+	for typeName, old := range gen.old.typeDefs {
+		if _, ok := old.Typ().(*ast.NamedType); !ok {
+			continue
+		}
+		// track is used to identify self-referential named types.
+		track := make(map[string]bool)
+		t, err := newType(typeName, old.Typ(), gen.old.typeDefs, track)
+		if err != nil {
+			return errors.WithStack(err)
+		}
+		target, ok := gen.new.typeDefs[t.Name()]
+		if !ok {
+			return errors.Errorf("unable to locate type definition of named type %q", enc.TypeName(t.Name()))
+		}
+		gen.new.typeDefs[typeName] = target
 	}
 	return nil
 }
